@@ -7,7 +7,8 @@ PROP_V = ["Props/Properties_C04.v", "Props/Properties_C01x.v", "Props/Properties
 GEN_MODULES = ["Consts", "Sites"]
 FLOW_FILES = ['cv.c', 'sem_wait.c', 'mu.c', 'wait.c']
 REPLAY_HINT = "VRT_SEED=<seed> VRT_MODE=<m> _work/h/cv_mix (or waitn_mix)"
-PARTIAL = ["after the F16 repair: C04_transferred_is_native (CvModel, every reachable world: whatever wake_waiters moves to the mutex queue is a native waiter associated with the mutex -- never a generic-interface waiter, which is woken directly), C04_old_xfer_moves_generic (the transfer loop of the code before f28c99f moves the generic record onto the mutex queue in a run with a native waiter first, a generic one behind it and one broadcast under the write lock; the repaired model wakes it); the replayer follows runs that mix native and generic waiters (cv_mix MODE 5 / 6 with VRT_MIXLOCKS=1) and fails if the implementation moves a record the model leaves on its wake list",
+PARTIAL = ["MuXferModel now also has GENERIC-interface waiters (XWaitG) and nsync_wait_n records: C04x_generic_never_transferred (a generic waiter is never marked transferred, never on the mutex queue or a releaser's wake list), C04x_f16_old_code_refuted / C04x_f16_old_stranded (with the transfer test of the code before f28c99f a balanced program -- native writer, generic waiter behind it, one broadcast under the write lock -- reaches a quiescent world with a locker asleep beside a free mutex, word 44), C04x_f16_schedule_repaired, C04x_balanced_no_mu_sleeper (balanced programs: no thread sleeps on the mutex queue in a quiescent world); the replayer compares the RETURN VALUES of the waits with the model's outcome ghost and follows cv_mix MODE 5 / 6 with mixed lock identities",
+           "after the F16 repair: C04_transferred_is_native (CvModel, every reachable world: whatever wake_waiters moves to the mutex queue is a native waiter associated with the mutex -- never a generic-interface waiter, which is woken directly), C04_old_xfer_moves_generic (the transfer loop of the code before f28c99f moves the generic record onto the mutex queue in a run with a native waiter first, a generic one behind it and one broadcast under the write lock; the repaired model wakes it); the replayer follows runs that mix native and generic waiters (cv_mix MODE 5 / 6 with VRT_MIXLOCKS=1) and fails if the implementation moves a record the model leaves on its wake list",
            "after the F15 repair: C04_waiting_bit_has_a_waiter / C04_waiting_bit_exact (CvModel: at wake_waiters' release MU_WAITING is left set only if a transferred record is on the mutex queue or the environment reported a plain locker queued; the replayer derives that choice from the trace and fails on a cleared bit over a non-empty queue or a kept bit over an empty one; cv_mix MODE 7 exercises the clearing branch), C04_abstract_mutex_lock_field (the lock field of the abstract mutex word counts the model's holders), C04_mu_spin_section; the environment actor MuDeq is refused while a wake_waiters thread owns the mutex spinlock (the real dequeue needs that spinlock)",
            "C04_no_lost_wakeup(_waitn): a waiter at its semaphore wait whose record a waker took is still on that waker's private list, or on the abstract "
            "mutex's queue / wake list, or has waiting = 0 with a post available, its waker at the V for it, or a post owed by the abstract mutex.  C04_no_stuck / "
@@ -59,7 +60,7 @@ def run(tier, seed):
                    "under a read lock, and the single-waiter mode in which a wake-up issued in time must be reported as 0 whatever the clock "
                    "and the note do afterwards; waitn_mix on cvs; non-trivial = runs with semaphore sleeps")
     tiex = mu_common.tie(res, "muxfer_replay", "MuXferModel", [("cv_mix", {"VRT_MODE": m}, 80, 800) for m in (0, 1, 2, 3, 4, 7)] +
-                         [("cv_mix", {"VRT_MODE": m, "VRT_GENERIC": 0, "VRT_MIXLOCKS": 0}, 60, 600) for m in (5, 6)], tier, seed)
+                         [("cv_mix", {"VRT_MODE": m, "VRT_MIXLOCKS": 1}, 60, 600) for m in (5, 6)], tier, seed)
     for k in ("traces_validated_against_impl", "lockstep_model_steps"):
         tie[k] = tie.get(k, 0) + tiex.get(k, 0)
     tie["model_sites_hit_muxfer"] = tiex.get("model_sites_hit", {})
